@@ -20,7 +20,10 @@ for pid in ids:
         "replay_cmd_template": "./check %s --replay {path}" % pid,
         "engine": "coq-corr",
         "level_claimed": {"category": "proof", "text": c["level_text"], "design_ref": c.get("design_ref", "DESIGN.md section 7/" + pid)},
-        "level_note": c["level_note"],
+        "level_note": c["level_note"] + (
+            " Scenario tests (scenarios/%s: Go tests from the property audits, compiled into the tree under check with go test -overlay) run with every check;"
+            " they support the tie to the code and the search for a failing input, no theorem rests on them." % pid
+            if os.path.isdir(os.path.join(ROOT, "scenarios", pid)) else ""),
         "technique": c.get("technique", "Coq 8.16 theorems over a hand-written executable Gallina model + correspondence check (model evaluated by vm_compute on inputs the real code was run on)"),
     })
 na = [{"property_id": pid, "reason": NOT_APPLICABLE.get(pid, "no check registered yet: the Coq model and correspondence driver for this property are not built; nothing is claimed")}
@@ -31,7 +34,7 @@ man = {
     "hooks": {"guard": "verif", "enable": "go build -tags verif (the harness is built with -tags verif against /repo's working tree)",
               "baseline_off_cmd": baseline, "source_commits": HOOK_COMMITS, "add_only": True},
     "engines": [{"name": "coq-corr", "path": "/verif/check", "serves_properties": [c["property_id"] for c in checks],
-                 "kind_free_text": "Coq 8.16.1 development under /verif/coq (model, theorems, Props/Cxx.v), Go harness under /verif/harness driving the real code, correspondence evaluated inside coqc"}],
+                 "kind_free_text": "Coq 8.16.1 development under /verif/coq (model, theorems, Props/Cxx.v), Go harness under /verif/harness driving the real code, correspondence evaluated inside coqc, facts regenerated from the source for C07/C16/C17/C18, scenario tests under /verif/scenarios"}],
     "checks": checks,
     "notes": "See DESIGN.md. Every check rebuilds the harness from /repo's working tree (VERIF_REPO overrides), honours VERIF_SEED and VERIF_TIER.",
     "not_applicable": na,
